@@ -164,7 +164,7 @@ package main
 //@ func ProcessMongoLogFile
 //@   props C08
 //@   safety C07
-//@   assigns GoMaps, wfailOn, scanErr, openFail, outN, stderrN, scannedN, envOps, decUseNumber, decFailed, decPos, Arr:Val, Mem:OMap, unflushed, bufDirty, scanDone
+//@   assigns GoMaps, wfailOn, scanErr, openFail, outN, stderrN, scannedN, envOps, decUseNumber, decFailed, decPos, Arr:Val, Mem:OMap, unflushed, bufDirty, scanDone, unverified
 //@   allocs Arr:Str
 //@   requires: !wfailOn[outWriter] && !scanErr && !openFail && fileReader != nil
 //@   requires key-in-use-is-the-persisted-one {C11}: implies(shouldEncrypt && encryptionKey != nil, havePersisted && persistedKey == mkbytes(elems(encryptionKey), off(encryptionKey), len(encryptionKey)))
